@@ -162,7 +162,7 @@ Lemma write_RI C d e :
   RI (C ++ d) (length C + length d) (ef_write e (utf8_enc d)).
 Proof.
   intros D Pe Pn Bn Ok LO.
-  unfold RI, ef_write, f_write, call. cbn [ef_rd ef_stream ref_step fst rf_data rf_pos].
+  unfold RI, ef_write, f_write, call. cbn [ef_rd ef_stream ref_step fst]. unfold write_at. cbn [rf_data rf_pos].
   rewrite D, Pe, overwrite_end. unfold wf, rest. cbn [rf_data rf_pos].
   rewrite enc_app, !app_length, Pn, Bn.
   split; [exact Ok|]. split; [lia|]. split; [reflexivity|]. split; [lia|]. split; [exact LO|].
